@@ -157,8 +157,90 @@ func ruleBlock(c *Ctx) {
 		c.Ok("decBlock:consumes-declared-size", p.Pos(fd), fmt.Sprintf("all %d nil-return paths consume exactly the declared bytes (or the size is 0)", nNil))
 	}
 	c.MinCount("decBlock nil-return paths", nNil, 3)
+	// every successful return has filled the whole destination (or the destination is empty): a destination that is
+	// left as it was exposes bytes of the previous document when the Serializer or the target ParsedJson is reused
+	nFill := 0
+	fillBad := ""
+	for _, sp := range sps {
+		if sp.RetNode == nil || !sp.Feasible() || len(sp.Ret) != 1 || !isNilAff(sp.Ret[0]) {
+			continue
+		}
+		empty, copied, spawned := false, false, false
+		for _, cd := range sp.Conds {
+			if cd.Other == "" && cd.Op == token.EQL && cd.L.String() == "len(P:dst)" && cd.R.IsConst() && cd.R.K == 0 {
+				empty = true
+			}
+		}
+		for _, ef := range sp.Effects {
+			if ef.Kind == "go" {
+				spawned = true
+			}
+			if ef.Kind == "call" && ef.Target == "copy" && len(ef.Args) == 2 && ef.Args[0].String() == "P:dst" {
+				src := "len(" + ef.Args[1].String() + ")"
+				for _, cd := range sp.Conds {
+					if cd.Other == "" && cd.Op == token.EQL && ((cd.L.String() == src && cd.R.String() == "len(P:dst)") || (cd.R.String() == src && cd.L.String() == "len(P:dst)")) {
+						copied = true
+					}
+				}
+			}
+		}
+		nFill++
+		if !(empty || copied || spawned) {
+			fillBad = "decBlock returns nil on a path that neither fills dst nor knows it to be empty" + condsDesc(sp, 6)
+		}
+	}
+	c.Check(fillBad == "" && nFill >= 3, "decBlock:fills-destination", p.Pos(fd), "every successful path fills the whole destination (copy of equal length, a decoder goroutine) or the destination is empty",
+		fillBad+": the destination keeps its previous content — with a reused destination that is data of the previously deserialized document, with a fresh one NUL bytes", "a blob whose strings block is declared with N bytes but has block size 0, deserialized into a reused ParsedJson")
+	// the decoder goroutines check the produced length
+	nChecked := 0
+	ast.Inspect(fd.Body, func(n ast.Node) bool {
+		gs, ok := n.(*ast.GoStmt)
+		if !ok {
+			return true
+		}
+		lit, ok := gs.Call.Fun.(*ast.FuncLit)
+		if !ok {
+			return true
+		}
+		full := false
+		for _, call := range callsIn(lit.Body) {
+			if shortCallee(p.CalleeName(call)) == "io.ReadFull" && len(call.Args) == 2 && p.Str(call.Args[1]) == "dst" {
+				full = true
+			}
+		}
+		// want := len(dst) … want != len(dst)
+		ast.Inspect(lit.Body, func(m ast.Node) bool {
+			if be, ok := m.(*ast.BinaryExpr); ok && be.Op == token.NEQ {
+				l, r := p.Str(be.X), p.Str(be.Y)
+				if (l == "len(dst)" && r == "want") || (r == "len(dst)" && l == "want") {
+					if def := resolveLocalIn(p, lit.Body, "want"); def == "len(dst)" {
+						full = true
+					}
+				}
+			}
+			return true
+		})
+		c.Check(full, fmt.Sprintf("decBlock:goroutine#%d:length-checked", nChecked+1), p.Pos(lit), "the decoder goroutine fails unless exactly len(dst) bytes were produced", "a decoder goroutine of decBlock does not verify that the decompressed data has exactly the declared length", "a block that decompresses to fewer bytes than declared")
+		nChecked++
+		return true
+	})
+	c.MinCount("decBlock decoder goroutines", nChecked, 2)
 	// unsigned guard before br.Next(int(size))
 	checkUnsignedGuards(c, p, fd, "decBlock")
+}
+
+// resolveLocalIn returns the source text of the (single) `name := expr` definition inside body.
+func resolveLocalIn(p *GoProg, body *ast.BlockStmt, name string) string {
+	out := ""
+	ast.Inspect(body, func(n ast.Node) bool {
+		if as, ok := n.(*ast.AssignStmt); ok && as.Tok == token.DEFINE && len(as.Lhs) == 1 && len(as.Rhs) == 1 {
+			if id, ok := as.Lhs[0].(*ast.Ident); ok && id.Name == name {
+				out = p.Str(as.Rhs[0])
+			}
+		}
+		return true
+	})
+	return out
 }
 
 // checkUnsignedGuards: every conversion int(E) of a uint64 read from the input that feeds a slice/Next/make length must be
